@@ -6,7 +6,7 @@ NOT_CLAIMED = {}
 HOOK_COMMITS = ['d073cfa']
 
 PROPS["C09"] = dict(
-    pkg="c09", level="exploration",
+    pkg="c09", level="exploration", exhaustive_core=True,
     technique="bounded-exhaustive enumeration + rapid random strings + native fuzzing against an independent RFC 8259/3629 decoder",
     level_text="Exploration: every byte string of length <=3 (quick) / <=4 (thorough) and every boundary-alphabet string up to length 5/6 is escaped and decoded by an independent scanner; because the escaper is a memoryless loop with at most 4 bytes look-ahead this window determines its output on all strings, and random 64 KiB strings plus coverage-guided fuzzing guard the memorylessness assumption.",
     level_note="Trusted: the harness's own RFC 3629 table and RFC 8259 string scanner (cross-checked against encoding/json on every string of length <=3 and a 1/64 sample beyond); the window argument assumes WriteLogString keeps no state between loop iterations.",
@@ -20,7 +20,7 @@ PROPS["C09"] = dict(
 )
 
 PROPS["C18"] = dict(
-    pkg="c18", level="exploration",
+    pkg="c18", level="exploration", exhaustive_core=True,
     technique="bounded-exhaustive enumeration + rapid random strings against a regular-expression oracle and a model registry",
     level_text="Exploration: the accepted set is compared with the documented language (regexp + length bounds) on every string up to length 5 (quick) / 7 (thorough) over a 10-symbol boundary alphabet and on every segment-length composition at total lengths 2..38, where validity can only depend on length and segment structure; the registry is compared with a model set after each block.",
     level_note="Trusted: Go's regexp package and the harness's model set. Assumes validity depends only on length, alphabet class and underscore structure (random byte/unicode strings probe the rest).",
